@@ -120,6 +120,7 @@ type Case struct {
 	sig      string
 	sample   any
 	failKeys map[string]bool
+	softKeys map[string]bool
 	runner   *Runner
 }
 
@@ -161,6 +162,26 @@ func (c *Case) Failf(key, format string, args ...any) {
 		return
 	}
 	c.failKeys[key] = true
+	c.mu.Unlock()
+	v := Violation{
+		Property: c.Prop, Key: key, Msg: fmt.Sprintf(format, args...), Seed: c.Seed, Case: c.Index,
+		Build: c.Build, Tier: c.Tier, Script: c.Script(),
+	}
+	c.runner.addViolation(v)
+}
+
+// SoftFailf records a violation like Failf but does not make Failed() true: the case goes on, so that a
+// (known) finding at one place does not hide what the rest of the case would observe.
+func (c *Case) SoftFailf(key, format string, args ...any) {
+	c.mu.Lock()
+	if c.softKeys == nil {
+		c.softKeys = map[string]bool{}
+	}
+	if c.softKeys[key] {
+		c.mu.Unlock()
+		return
+	}
+	c.softKeys[key] = true
 	c.mu.Unlock()
 	v := Violation{
 		Property: c.Prop, Key: key, Msg: fmt.Sprintf(format, args...), Seed: c.Seed, Case: c.Index,
